@@ -230,6 +230,10 @@ pub fn k19_3_simple_sequence_6<S: Src>(s: &mut S) {
     k19_3_simple_sequence::<S, 6>(s)
 }
 
+pub fn k19_3_simple_sequence_8<S: Src>(s: &mut S) {
+    k19_3_simple_sequence::<S, 8>(s)
+}
+
 // ---- K19.4 SimpleSequence::next_section / next_id never overlap -------------------------------------
 pub fn k19_4_sections<S: Src>(s: &mut S) {
     let start = s.u64();
@@ -269,6 +273,7 @@ mod proofs {
     p!(k19_1_seqgroup_fifo, 11);
     p!(k19_1_seqgroup_any_order, 11);
     p!(k19_3_simple_sequence_6, 8);
+    p!(k19_3_simple_sequence_8, 10);
     p!(k19_4_sections, 3);
 }
 
@@ -278,6 +283,7 @@ pub fn replay(name: &str, s: &mut RSrc) -> bool {
         "k19_1_seqgroup_fifo" => k19_1_seqgroup_fifo(s),
         "k19_1_seqgroup_any_order" => k19_1_seqgroup_any_order(s),
         "k19_3_simple_sequence_6" => k19_3_simple_sequence_6(s),
+        "k19_3_simple_sequence_8" => k19_3_simple_sequence_8(s),
         "k19_4_sections" => k19_4_sections(s),
         _ => return false,
     }
